@@ -757,3 +757,95 @@ LEVEL_TEXT = ("Coq theorems about the wrapper trampoline for all generator bodie
 LEVEL_NOTE = ("Trusted: Coq kernel; hand-written model (Model/Generators.v) of the wrapper, of contextvars and of the generator "
               "protocol, tied by correspondence; Twisted is not installed, so eliot.twisted.inline_callbacks is covered only "
               "through the wrapper theorems ('hence'), never executed.")
+
+
+# ---- several decorated generators that each do `with shared.context():` on ONE shared action across their yields ----
+def gen_shared_ctx(rng, tier):
+    out = []
+    for _ in range(60 if tier == "quick" else 1000):
+        ngen = rng.choice([2, 2, 3])
+        # every generator: probe, enter the shared action's context, yield ..., leave it, probe, return
+        yields = [rng.randrange(1, 4) for _ in range(ngen)]
+        order = []
+        left = list(yields)
+        started = [False] * ngen
+        while any(x >= 0 for x in left):
+            g = rng.choice([i for i in range(ngen) if left[i] >= 0])
+            order.append(g)
+            left[g] -= 1
+        out.append({"ngen": ngen, "yields": yields, "order": order, "own": [rng.random() < 0.8 for _ in range(ngen)]})
+    return out
+
+
+def impl_shared_ctx(case):
+    from eliot import _output, start_action, current_action
+    from eliot._generators import eliot_friendly_generator_function
+    d = _output.Destinations()
+    _output.Logger._destinations = d
+    d.add(lambda m: None)
+    names = {}
+
+    def name():
+        a = current_action()
+        return None if a is None else names.get(id(a), "?")
+    shared = start_action(action_type="shared")
+    names[id(shared)] = "shared"
+    log = []
+
+    @eliot_friendly_generator_function
+    def gen(i, k):
+        log.append([i, "start", name()])
+        with shared.context():
+            for j in range(k):
+                log.append([i, "inside", name()])
+                yield j
+                log.append([i, "resumed", name()])
+        log.append([i, "left", name()])
+        yield "after"
+        log.append([i, "end", name()])
+    gens, driver = {}, []
+    errors = []
+    for g in case["order"]:
+        try:
+            if g not in gens:
+                if case["own"][g]:
+                    with start_action(action_type="own%d" % g) as a:
+                        names[id(a)] = "own%d" % g
+                        gens[g] = gen(g, case["yields"][g])
+                        next(gens[g])
+                        driver.append([g, name()])
+                else:
+                    gens[g] = gen(g, case["yields"][g])
+                    next(gens[g])
+                    driver.append([g, name()])
+            else:
+                next(gens[g])
+                driver.append([g, name()])
+        except StopIteration:
+            pass
+        except BaseException as e:
+            errors.append("generator %d: %s: %s" % (g, type(e).__name__, e))
+    shared.finish()
+    return {"log": log, "driver": driver, "errors": errors}
+
+
+def oracle_shared_ctx(case, obs):
+    if obs["errors"]:
+        return obs["errors"][0]
+    for i, what, cur in obs["log"]:
+        base = "own%d" % i if case["own"][i] else None
+        want = "shared" if what in ("inside", "resumed") else base
+        if cur != want:
+            return "generator %d at %r: current action is %r, its own context says %r" % (i, what, cur, want)
+    # driver probes: after every resumption the driver's current action is what it was before it
+    seen_first = set()
+    for g, cur in obs["driver"]:
+        expected = ("own%d" % g) if (case["own"][g] and g not in seen_first) else None
+        seen_first.add(g)
+        if cur != expected:
+            return "after resuming generator %d the driver's current action is %r, it was %r before" % (g, cur, expected)
+    return None
+
+
+FAMILIES.append(Family("shared_context", gen_shared_ctx, impl_shared_ctx, None, None, oracle_shared_ctx,
+                       lambda case, obs: json.dumps(case), shard=30, case_timeout=30))
